@@ -20,7 +20,7 @@ TYPES = ["i8", "u8", "i16", "u16", "i32", "u32", "i64", "u64", "f", "d", "ld", "
 TSIZE = {"i8": 1, "u8": 1, "i16": 2, "u16": 2, "i32": 4, "u32": 4, "i64": 8, "u64": 8, "f": 4, "d": 8,
          "ld": 16, "p": 8}                 # the documented x86-64 sizes (python statement of the property)
 DATAK = ("data", "bss", "ref", "expr", "lref")
-ENGINES = ["interp", "gen", "lazy"]
+ENGINES = ["interp", "gen", "lazy", "regen"]   # regen: generated and run, then prepared and run by the interpreter
 rng = ck.rng
 
 # ------------------------------------------------------------------------------------------ cases
@@ -252,7 +252,7 @@ def words(alphabet, maxlen):
 def directed_cases():
     cs = []
     for k, ty in enumerate(TYPES):
-        b = Builder(f"ty-{ty}", ENGINES[k % 3])
+        b = Builder(f"ty-{ty}", ENGINES[k % len(ENGINES)])
         ef = b.add("efunc", "ef", ty, rand_value(ty))
         b.add("data", "a", ty, 2, rand_bytes(2 * TSIZE[ty]))
         b.add("data", "-", "i8", 1, "5a")
@@ -275,7 +275,7 @@ def directed_cases():
             [["forward", "later"], ["data", "a", "u8", 1, "ff"], ["ref", "-", 0, 2], ["bss", "later", 9],
              ["export", "later"]],
     ]):
-        cs.append({"id": f"dir-{k}", "engine": ENGINES[k % 3], "lines": lines})
+        cs.append({"id": f"dir-{k}", "engine": ENGINES[k % len(ENGINES)], "lines": lines})
     # every relative order of {declaration, ref through it, definition} for export/forward declarations
     # of data, bss and function definitions (the ref needs the declaration's item, so it follows it),
     # with and without another ref placed after the definition, plus import; under each engine
@@ -605,11 +605,11 @@ def main():
     thorough = ck.tier == "thorough"
     wl = sorted(set(words("AawWqzbBrRxyeElLFP", 4 if thorough else 3)))
     for k, w in enumerate(wl):
-        cases.append(gen_word(f"w-{w}", ENGINES[(k + ck.seed) % 3], w))
+        cases.append(gen_word(f"w-{w}", ENGINES[(k + ck.seed) % len(ENGINES)], w))
     n_random = 60000 if thorough else 4000
     for k in range(n_random):
         length = 1 + rng.below(12) if rng.chance(2, 3) else 10 + rng.below(40)
-        cases.append(gen_random(f"r-{k}", ENGINES[rng.below(3)], length, want_lref=rng.chance(1, 3)))
+        cases.append(gen_random(f"r-{k}", ENGINES[rng.below(len(ENGINES))], length, want_lref=rng.chance(1, 3)))
     ck.log(f"{len(cases)} cases ({len(corpus)} corpus, {len(wl)} exhaustive words, {n_random} random)")
 
     t = time.time()
